@@ -5181,6 +5181,8 @@ class DfaCompileCtx:
         Convert the AST into a (potentially optimized) DFA.
         """
 
+        if self.ast is None:
+            raise IllegalASTStateError("The parser does not match any input (it consists only of actions)", *self.start_actions)
         self.dfa = self.ast.convert(defaultdict(lambda: self.generic_fail_state))
         self.dfa.add(self.generic_fail_state)
 
